@@ -79,6 +79,8 @@ TUpdateInvalid == IsEvent("UpdateInvalid") /\ LET e == Log[l] IN
 TObs == IsEvent("Obs") /\ LET e == Log[l]  o == obj[e.id] IN
   /\ NoThrow(e)
   /\ SameVal(e.s, o)
+  \* the same sample through another traversal idiom (copied iterators, std algorithms)
+  /\ (Has(e, "sx") => Chk("traversal-idioms-agree", e.sx.x = e.s.x /\ e.sx.wI = e.s.wI /\ e.sx.g = e.s.g /\ e.sx.gw = e.s.gw) /\ SameVal(e.sx, o))
   /\ \A j \in 1..Len(e.sub) : LET q == e.sub[j] IN
        /\ Both("bounds", "C06:bounds", q.lb <= q.est /\ q.est <= q.ub)
        /\ (q.p = "all" =>
@@ -135,6 +137,7 @@ TUResult == IsEvent("UResult") /\ LET e == Log[l] IN
         /\ Chk("result-items-from-input-samples", Sample(new) \subseteq v.pool)
         /\ UnionResult(e.u, e.dst, e.s.k, Hn, Rn, tw)
   /\ UNCHANGED blob
+TUCopy == IsEvent("UCopy") /\ LET e == Log[l] IN NoThrow(e) /\ UnionCopy(e.src, e.dst) /\ UNCHANGED blob
 TUReset == IsEvent("UReset") /\ LET e == Log[l] IN UnionReset(e.u) /\ UNCHANGED blob
 TUDrop == IsEvent("UDrop") /\ LET e == Log[l] IN UnionDestroy(e.u) /\ UNCHANGED blob
 
@@ -160,6 +163,6 @@ TStat == IsEvent("Stat") /\ LET e == Log[l]  tot == SumTo(e.w, Len(e.w)) IN
 
 TInit == obj = <<>> /\ un = <<>> /\ blob = <<>> /\ l = 1
 TNext == TBegin \/ TDNew \/ TDUpdate \/ TNew \/ TNewInvalid \/ TUNewInvalid \/ TUpdate \/ TUpdateInvalid \/ TObs \/ TCopy \/ TReset \/ TDrop
-         \/ TSer \/ TDeser \/ TDeserBad \/ TSerU \/ TDeserU \/ TUNew \/ TUUpdate \/ TUResult \/ TUReset \/ TUDrop \/ TStat
+         \/ TSer \/ TDeser \/ TDeserBad \/ TSerU \/ TDeserU \/ TUNew \/ TUUpdate \/ TUResult \/ TUReset \/ TUCopy \/ TUDrop \/ TStat
 TSpec == TInit /\ [][TNext]_tvars
 ====
